@@ -20,12 +20,18 @@ def pairOut : Option (Float × Float) → String
   | none => "ERR undefined"
   | some (a, b) => if a.isNaN || b.isNaN then "ERR missingTable-or-nan" else s!"OK {tokOfF a} {tokOfF b}"
 
+def oneOut : Option Float → String
+  | none => "ERR undefined"
+  | some a => if a.isNaN then "ERR missingTable-or-nan" else s!"OK {tokOfF a}"
+
 /-- ops
   `ll weibull a b g <data>` · `ll expweibull a b d <data>` · `ll normal l2pi mu sigma <data>` ·
   `ll lognormal l2pi mu sigma <data>` · `ll gengamma m c lam <data>` · `ll vonmises l2pi kappa mu <data>` ·
   `ll gamma a l s <data>` · `ll gumbel l s <data>`              → `OK <sum of log-densities>`
   `fit normal <data>` · `fit lognormal <data>`                  → `OK p1 p2`
-  `fit normfit <data>`                                          → `OK mu_norm sigma_norm mu sigma` -/
+  `fit normfit <data>`                                          → `OK mu_norm sigma_norm mu sigma`
+  `fit normal_floc m <data>` · `fit normal_fscale <data>` · `fit lognormal_fmu m <data>` ·
+  `fit lognormal_fsigma <data>`  (one parameter fixed)          → `OK <the estimated parameter>` -/
 def handleC12 : Handler := fun st toks =>
   let log := leaf1 st "log"
   let exp := leaf1 st "exp"
@@ -80,6 +86,22 @@ def handleC12 : Handler := fun st toks =>
   | "fit" :: "lognormal" :: rest =>
     match takeFloats rest with
     | some (xs, _) => some (pairOut (lognormalFit log exp Float.sqrt xs))
+    | none => some "ERR parse"
+  | "fit" :: "normal_floc" :: m :: rest =>
+    match takeFloats rest with
+    | some (xs, _) => some (oneOut (normalFitFixedLoc Float.sqrt (fOfTok m) xs))
+    | none => some "ERR parse"
+  | "fit" :: "normal_fscale" :: rest =>
+    match takeFloats rest with
+    | some (xs, _) => some (oneOut (normalFitFixedScale xs))
+    | none => some "ERR parse"
+  | "fit" :: "lognormal_fmu" :: m :: rest =>
+    match takeFloats rest with
+    | some (xs, _) => some (oneOut (lognormalFitFixedMu log exp Float.sqrt (fOfTok m) xs))
+    | none => some "ERR parse"
+  | "fit" :: "lognormal_fsigma" :: rest =>
+    match takeFloats rest with
+    | some (xs, _) => some (oneOut (lognormalFitFixedSigma log exp xs))
     | none => some "ERR parse"
   | "fit" :: "normfit" :: rest =>
     match takeFloats rest with
